@@ -48,7 +48,7 @@ REWRITES
            the collected vector means: empty = never, one element = itself, Thresh(k, vec) = at least k, Threshold invariant);
            `proof { lemma_thresh_node(..) }` after `let <x> = Threshold::new(..).expect(..);` (establishes the Threshold
            invariant normalized() requires and unfolds the meaning of the node), one lemma call at the top of TapTree::lift,
-           Tr::lift's tail `match` is bound to a name so that a ghost block can follow it (as in c07_lift)
+           Tr::lift's tail expression (`match` / `if let .. else` / ..; L7.bind_tail) is bound to a name so that a ghost block can follow it (as in c07_lift)
 Any other way of visiting the leaves (`.take(..)`, a different collector, two accumulators, ...) is an anchor loss: UNDECIDED.
 
 NOTE on reading a red run: Verus does not stop a path at a failed callee precondition.  When a change makes the collected
@@ -87,7 +87,7 @@ DROPPED = [
     "c07_taptree: Semantic::normalized is consumed through its contract (proved in c18_normalized, identical clause text)",
     "c07_taptree: precondition `the tree has at least one leaf` (type invariant of TapTree: `leaf` creates one, `combine` / `translate_pk` keep the "
     "count, TapTreeBuilder::finalize asserts non-emptiness); without it `Threshold::new(1, []).expect(..)` panics",
-    "c07_taptree: struct Tr is extracted without its `spend_info: Mutex<..>` cache field (not read by lift); Tr::lift's tail `match` is bound to a "
+    "c07_taptree: struct Tr is extracted without its `spend_info: Mutex<..>` cache field (not read by lift); Tr::lift's tail expression is bound to a "
     "name so that a ghost block can follow it (R10)",
     "c07_taptree: Threshold::{or_n, and_n}: `assert_ne!(inner.len(), 0)` is written `assert!(inner.len() != 0)` (R7; core::panicking::assert_failed has no "
     "Verus specification); the assertion is the functions' precondition",
@@ -749,11 +749,11 @@ def build(repo):
     with vf.block("impl<Pk: MiniscriptKey> Tr<Pk>"):
         vf.fn(TR, "impl:Liftable<Pk> for Tr<Pk>/fn:lift", qual="Tr", props=PROPS,
               rewrites=[R7E,
-                        lit("R10", "match &self.tree {", "broadcast use axiom_key_clone;\n        let tr_result = match &self.tree {"),
-                        sub("R10", r"\}\s*\}\s*$", "};\n        proof { if tr_result is Ok && tr_result->Ok_0 is Thresh && tr_result->Ok_0->Thresh_0.inner@.len() == 2 { "
-                            "let ghost p = tr_result->Ok_0; "
-                            "assert forall|a: Asg<Pk>| #[trigger] sem(p, a) == (b2n(sem(*p->Thresh_0.inner@[0], a)) + b2n(sem(*p->Thresh_0.inner@[1], a)) >= p->Thresh_0.k) "
-                            "by { lemma_thresh_pair(p, a); } } }\n        tr_result\n    }")],
+                        L7.bind_tail("tr_result", "broadcast use axiom_key_clone;",
+                                     "proof { if tr_result is Ok && tr_result->Ok_0 is Thresh && tr_result->Ok_0->Thresh_0.inner@.len() == 2 { "
+                                     "let ghost p = tr_result->Ok_0; "
+                                     "assert forall|a: Asg<Pk>| #[trigger] sem(p, a) == (b2n(sem(*p->Thresh_0.inner@[0], a)) + b2n(sem(*p->Thresh_0.inner@[1], a)) >= p->Thresh_0.k) "
+                                     "by { lemma_thresh_pair(p, a); } } }")],
               contract=Contract(requires=["self.tree matches Some(t) ==> tree_nonempty(t)"], ensures=[
                   C("key_spend_only", "self.tree is None ==> r is Ok && " + ALL + KEY),
                   C("key_or_any_one_leaf", "self.tree matches Some(t) ==> r is Ok ==> " + ALL + "(%s || some_leaf_spends(t, a))" % KEY),
